@@ -4,7 +4,7 @@ import json
 
 CLAIMS = {
  "C15": dict(cat="model_checking", design="6 C15",
-  text="All operation histories of length <=3 (quick) / <=4 (thorough) over 33 load/run/cancel operations (incl. a script loaded by one operation, held and run by a later one) are executed on the real code built with a sync.Pool shim in which the answer of EVERY pool Get (parser, task, point, metadata pools) is an explorer choice: the default LIFO reuse, then every deviation (any other pooled object or a fresh one) at every Get, up to 2 deviations per history — about 2 million executions in the quick tier. The last operation's outcome must equal the outcome of the same operation executed first with empty pools; loaded scripts are shared across all histories.",
+  text="All operation histories of length <=3 (quick) / <=4 (thorough) over 36 load/run/cancel operations (incl. a script loaded by one operation, held and run by a later one) are executed on the real code built with a sync.Pool shim in which the answer of EVERY pool Get (parser, task, point, metadata pools) is an explorer choice: the default LIFO reuse, then every deviation (any other pooled object or a fresh one) at every Get, up to 2 deviations per history — about 3.4 million executions in the quick tier. The last operation's outcome must equal the outcome of the same operation executed first with empty pools; loaded scripts are shared across all histories.",
   note="Assumes pools and loaded syntax trees are the only state surviving an operation (package-level variables are covered by C16's shared-state hash). Real sync.Pool may also drop objects at GC, which is the 'fresh' answer.",
   tech="explicit-state search over operation histories with exhaustively enumerated pool answers (deviation-bounded) on the real code"),
  "C16": dict(cat="model_checking", design="6 C16",
@@ -16,7 +16,7 @@ CLAIMS = {
   note="If the overlay pattern no longer matches (refactored loader) the check says so and reports exhaustive:false. Names are opaque to the linker except through map order, which is controlled.",
   tech="exhaustive enumeration of configurations x visit orders (controlled map iteration through a build overlay) on the real loader vs graph-reachability reference"),
  "C11": dict(cat="model_checking", design="6 C11",
-  text="54 call templates of the 15 field-manipulating builtins x 6 key spellings x 11 subject situations (variable / field / tag / variable shadowing either / absent / five in which a variable of that name has ceased to exist) x 33 subject values x 3 base points are run on the real engine and on reference builtins; the WHOLE canonical final point (so every other key is checked untouched), captured standard output, return values and read-backs and the error flag must agree. Complete product, about 260000 executions.",
+  text="54 call templates of the 15 field-manipulating builtins x 6 key spellings x 15 subject situations (variable / field / tag / variable shadowing either / absent / five in which a variable of that name has ceased to exist / another value in every round / key read and then renamed away or dropped) x 33 subject values x 3 base points are run on the real engine and on reference builtins; the WHOLE canonical final point (so every other key is checked untouched), captured standard output, return values and read-backs and the error flag must agree. Complete product, about 360000 executions.",
   note="strings, regexp, net/url, fmt, encoding/json and spf13/cast are shared trusted base. Unspecified cells (cast of collections or non-numeric strings, rename onto an existing key, ...) are skipped and counted.",
   tech="bounded-exhaustive enumeration of builtin call shapes x subject situations x values on the real engine vs reference builtins"),
  "C12": dict(cat="model_checking", design="6 C12",
@@ -24,7 +24,7 @@ CLAIMS = {
   note="The engines (grok, xmlquery, dateparse, time, obfuscate) are trusted. Zone labels are checked against fixed offsets only where the zone has no DST ambiguity at the test date.",
   tech="bounded-exhaustive enumeration of pattern placements / inputs on the real engine vs reference plumbing around trusted engines"),
  "C20": dict(cat="model_checking", design="6 C20",
-  text="Every script of <=2 (thorough <=3) statements over 26 statement kinds x 15 inputs x {workspace, single file} x {json, lineprotocol} x {run, check-only} is executed through the real binary built from the current tree; stdout is parsed back and compared field by field with the same script and input run through the library API; errors must be reported without an output block. Quick: every script with a rotating 1/23 of the grid (about 2700 invocations); thorough: the full grid.",
+  text="Every script of <=2 (thorough <=3) statements over 31 statement kinds x 16 inputs x {workspace, single file} x {json, lineprotocol} x {run, check-only} is executed through the real binary built from the current tree; stdout is parsed back and compared field by field with the same script and input run through the library API; errors must be reported without an output block. Quick: every script with a rotating 1/5 (one statement) or 1/41 (two statements) of the grid (about 2800 invocations), the workspace given in four spellings; thorough: the full grid.",
   note="The influx line-protocol codec is trusted. Text input's default measurement name is pinned; wall-clock times are accepted within the invocation bracket.",
   tech="bounded-exhaustive enumeration of scripts x inputs x configurations through the real CLI binary vs the library API"),
  "C10": dict(cat="model_checking", design="6 C10",
@@ -36,7 +36,7 @@ CLAIMS = {
   note="Functions are assumed to declare their return values in FnDesc.Returns. v1 is not run side by side; both are compared against the same reference in their own checks.",
   tech="bounded-exhaustive program enumeration on the real v2 interpreter vs reference interpreter (v2 dialect)"),
  "C08": dict(cat="model_checking", design="6 C08",
-  text="107 syntactic positions (every slice bound in every form, every index level, both sides of all assignment kinds, every for clause, named/positional arguments at depth, map keys, deep blocks, ...) x 444 offenders (unknown function, every wrong arity 0..4 and every forbidden argument kind of each of 22 builtins) are loaded through the real check pass; v2 gets unknown functions and every unbindable call shape; break/continue in 12 placements on both passes; 44 reduced function tables. Rejected iff an offender is present, the first error position must lie inside the offender, and every valid call of every builtin must load in every position.",
+  text="120 syntactic positions (every slice bound in every form, every index level, both sides of all assignment kinds, every for clause, named/positional arguments at depth, map keys, deep blocks, ...) x 444 offenders (unknown function, every wrong arity 0..4 and every forbidden argument kind of each of 22 builtins) are loaded through the real check pass; v2 gets unknown functions and every unbindable call shape; break/continue in 12 placements on both passes; 44 reduced function tables. Rejected iff an offender is present, the first error position must lie inside the offender, and every valid call of every builtin must load in every position.",
   note="The per-builtin rules come from a reference table written from the function documentation and checkers (DESIGN.md appendix A). One offender per program.",
   tech="bounded-exhaustive enumeration of (syntactic position x offender x function table) on the real loaders with a rejected-iff-offender oracle"),
  "C05": dict(cat="model_checking", design="6 C05",
